@@ -200,7 +200,7 @@ def mature (h : Nat) (st : St) : St :=
       | none => none }
 
 /-- `cur_height >= request.timer()` for a request whose outpoint has no confirmed spend -/
-def due (h : Nat) (c : Claim) : Bool := c.spentAt.isNone && decide (c.timer ≤ h)
+def due (h : Nat) (c : Claim) : Bool := c.spentAt.isNone && timerExpired h c.timer
 
 -- mirrors update_claims_view_from_matched_txn, third loop ("Check if any pending claim request must be rescheduled")
 def bump (W : World) (h : Nat) (st : St) : St :=
@@ -221,7 +221,7 @@ def connect (W : World) (st : St) (txs : List BTx) : Option (St × List Outpoint
     let st2 := mature h st1
     let bc := W.allOutpoints.filter fun X =>
       match st2.claim X with
-      | some c => c.spentAt.isNone && ((st.claim X).isNone || decide (c.timer ≤ h))
+      | some c => c.spentAt.isNone && ((st.claim X).isNone || timerExpired h c.timer)
       | none => false
     some (bump W h st2, bc)
 
